@@ -228,11 +228,21 @@ func runBatch(ctx context.Context, node Node, shared *SharedStore) (Action, erro
 	return action, nil
 }
 
+// markSkipped records an error for every item from index from on that a stop
+// left unprocessed, as the concurrent path does, so that Post never sees the
+// zero Result of an item that did not run as a success.
+func markSkipped(results []Result, from int) {
+	for i := from; i < len(results); i++ {
+		results[i] = NewErrorResult(fmt.Errorf("batch stopped due to error"))
+	}
+}
+
 func runBatchSequential(ctx context.Context, node Node, items []Result, results []Result, errorHandling string) {
 	for i, item := range items {
 		if ctx.Err() != nil {
 			results[i] = NewErrorResult(fmt.Errorf("context cancelled"))
 			if errorHandling == "stop" {
+				markSkipped(results, i+1)
 				break
 			}
 			continue
@@ -242,6 +252,7 @@ func runBatchSequential(ctx context.Context, node Node, items []Result, results 
 		if err != nil {
 			results[i] = NewErrorResult(err)
 			if errorHandling == "stop" {
+				markSkipped(results, i+1)
 				break
 			}
 		} else {
